@@ -141,6 +141,8 @@ def hard_check(solver, timeout_s, value_of=()):
 
 
 _CONE_CACHE = {}
+_SLOW = {"unknowns": 0}       # process-wide: after 3 undecided queries the long (120/600 s) proof attempt is skipped for the rest of this
+                              # worker process, so that a tree on which many goals become hard is reported inconclusive in minutes, not hours
 
 
 class Decider:
@@ -258,10 +260,11 @@ class Decider:
         rb, model = self._phase_b(goal, A, first_round=1)
         if rb == "sat":
             return dict(verdict="sat", phase="B", ms=1000 * (time.time() - t0), model=model)
-        if not goal.is_const and self.t_long > self.t_short:
+        if not goal.is_const and self.t_long > self.t_short and _SLOW["unknowns"] < 3:
             r1 = self._a1(A, ng, self.t_long, name)
             if r1 == "unsat":
                 return self._proved(A, "A1-long", t0, name)
+        _SLOW["unknowns"] += 1
         return dict(verdict="unknown", phase="A1+B", ms=1000 * (time.time() - t0))
 
     def _a1(self, A, ng, timeout, name):
